@@ -12,6 +12,7 @@ import (
 	"github.com/hashicorp/consul/internal/verifmc/c06"
 	"github.com/hashicorp/consul/internal/verifmc/c08"
 	"github.com/hashicorp/consul/internal/verifmc/c08r"
+	"github.com/hashicorp/consul/internal/verifmc/c08s"
 	"github.com/hashicorp/consul/internal/verifmc/c09"
 	"github.com/hashicorp/consul/internal/verifmc/c10"
 	"github.com/hashicorp/consul/internal/verifmc/c11"
@@ -32,7 +33,7 @@ var checks = map[string]checkDef{
 	"C03": {"model_checking", c03.Run},
 	"C05": {"model_checking", c05.Run},
 	"C06": {"model_checking", c06.Run},
-	"C08": {"exploration", func(c *ev.Ctx) { c08.Run(c); c08r.Run(c) }},
+	"C08": {"exploration", func(c *ev.Ctx) { c08.Run(c); c08r.Run(c); c08s.Run(c) }},
 	"C09": {"exploration", c09.Run},
 	"C10": {"exploration", c10.Run},
 	"C11": {"model_checking", c11.Run},
